@@ -132,6 +132,9 @@ func (w *writer) Message() MessageWriter {
 func (w *writer) Free() {
 	w.close()
 
+	if w.writerState == nil {
+		return
+	}
 	if !w.releaseState && !w.releaseWriter {
 		w.free()
 	}
